@@ -178,6 +178,24 @@ fn attempt<F: FnOnce(&mut Sim) -> Result<cw_multi_test::AppResponse, String>>(si
     Ok(Attempt { ok: r.is_ok(), err: r.err().unwrap_or_default() })
 }
 
+/// the documented deposit predicate in exact rationals: (both ratio tests hold, undecidable at the
+/// contract's 18-digit resolution)
+fn ratio_test(da: &BigUint, db: &BigUint, pa: &BigUint, pb: &BigUint, tv: u128) -> (bool, bool) {
+    if tv > DEC18 {
+        return (false, false);
+    }
+    let omt = big(DEC18 - tv);
+    let c1 = da * &omt * pb <= pa * db * big(DEC18);
+    let c2 = db * &omt * pa <= pb * da * big(DEC18);
+    let near_abs = |an: &BigUint, ad: &BigUint, cn: &BigUint, cd: &BigUint| -> bool {
+        let l = an * &omt * cd;
+        let r = cn * ad * big(DEC18);
+        let diff = if l > r { &l - &r } else { &r - &l };
+        diff <= big(2) * ad * cd
+    };
+    (c1 && c2, near_abs(da, db, pa, pb) || near_abs(db, da, pb, pa))
+}
+
 fn protection_reason(e: &str) -> bool {
     let e = e.to_lowercase();
     e.contains("slippage") || e.contains("spread") || e.contains("minimum receive") || e.contains("belief") || e.contains("denominator must not be zero")
@@ -261,7 +279,10 @@ impl Protections {
             let (pid, askd, oc) = (p.id.clone(), p.denoms[ai].clone(), offer_coin.clone());
             let s2 = sender.clone();
             let a = attempt(sim, &what, |s| s.w.swap(&s2, &pid, oc, &askd, belief, setting, None))?;
-            if !a.ok && !protection_reason(&a.err) {
+            // a refusal is the protection's if its wording says so or - wording aside - if the
+            // contract's own formula applied to the quote's figures refuses this trade
+            let by_numbers = crate::pool::monitors::protection_refuses(&q, amount, Some(Decimal::new(Uint128::new(eff))), belief) == Some(true);
+            if !a.ok && !protection_reason(&a.err) && !by_numbers {
                 // refused for another reason (arithmetic on extreme states): not this property's business
                 st.bump("swap attempts refused for other reasons");
                 return Ok(());
@@ -406,7 +427,17 @@ impl Protections {
             );
             let (pid, f2, s2) = (p.id.clone(), funds.clone(), sender.clone());
             let a = attempt(sim, &what, |s| s.w.provide(&s2, &pid, &f2, setting, None, None, None, None))?;
-            let slippage_err = a.err.to_lowercase().contains("slippage");
+            // the refusal is the tolerance's if its wording says so or if the documented predicate
+            // itself refuses this deposit (constant product; a tolerance above 1 is always refused)
+            let predicted_reject = match t {
+                Some(tv) if tv > DEC18 => true,
+                Some(tv) if !matches!(p.kind, Kind::Ss { .. }) => {
+                    let (okp, near) = ratio_test(&da, &db, &pa, &pb, tv);
+                    !okp && !near
+                }
+                _ => false,
+            };
+            let slippage_err = a.err.to_lowercase().contains("slippage") || predicted_reject;
             if !a.ok && !slippage_err {
                 st.bump("deposit attempts refused for other reasons");
                 return Ok(());
@@ -552,7 +583,14 @@ impl Protections {
             );
             let (pid, s2, f2) = (p.id.clone(), sender.clone(), vec![coin(amount, &p.denoms[oi])]);
             let a = attempt(sim, &what, |s| s.w.provide(&s2, &pid, &f2, setting, Some(Decimal::percent(50)), None, None, None))?;
-            if !a.ok && !a.err.to_lowercase().contains("slippage") {
+            let predicted_reject = match t {
+                Some(tv) => {
+                    let (okp, near) = ratio_test(&da, &db, &pa, &pb, tv);
+                    !okp && !near
+                }
+                None => false,
+            };
+            if !a.ok && !a.err.to_lowercase().contains("slippage") && !predicted_reject {
                 st.bump("one-asset deposit attempts refused for other reasons");
                 return Ok(());
             }
@@ -694,7 +732,7 @@ impl Protections {
             let at = attempt(sim, &what, |s| {
                 s.w.pm_exec(&s2, &pm::ExecuteMsg::ExecuteSwapOperations { operations: o2, minimum_receive: None, receiver: None, max_slippage: setting }, &[coin(amount, d2)])
             })?;
-            if !at.ok && !protection_reason(&at.err) {
+            if !at.ok && !protection_reason(&at.err) && !any_reject {
                 st.bump("route attempts refused for other reasons");
                 return Ok(());
             }
@@ -774,7 +812,7 @@ impl Protections {
                     &[coin(amount, d2)],
                 )
             })?;
-            if !a.ok && !a.err.to_lowercase().contains("minimum receive") {
+            if !a.ok && !a.err.to_lowercase().contains("minimum receive") && min <= q {
                 st.bump("route attempts refused for other reasons");
                 return Ok(());
             }
